@@ -484,7 +484,8 @@ def run_validate(bld, execs, module, cfg, np=1, shim=False, san=False, env=None,
             continue
         ev = to_events(r)
         if r["status"] in ("hang", "crash", "incomplete"):
-            ev.append({"e": "ABNORMAL", "a": {"status": r["status"]}, "rc": r["status"], "out": {}, "obs": {}})
+            ev.append({"e": "ABNORMAL", "a": {"status": r["status"]}, "rc": r["status"], "out": {}, "obs": {},
+                       "rk": [{"r": 0, "a": {"status": r["status"]}, "rc": r["status"], "out": {}, "obs": {}}]})
         if r["status"] == "driver_error":
             bad = [s for s in r["steps"] if any(e.get("rc") == "DRIVER_ERROR" for e in s["rk"])]
             raise InfraError("driver error in %s: %s" % (ex["x"], json.dumps(bad[0])[:3000]))
